@@ -447,6 +447,46 @@ func genBufScenario(rng *rand.Rand, profile string, mode string) *BScenario {
 		}
 		return "put"
 	}
+	// property-driven shapes for reclamation (C04): the last state change is a commit while other consumers are
+	// parked in Get, or the close of the slowest consumer while others stay open
+	if profile == "reclaim" && rng.Intn(100) < 55 {
+		k := 2 + rng.Intn(2)
+		nv := 2 + rng.Intn(3)
+		sc.Drivers = nil
+		for c := 1; c <= k; c++ {
+			sc.Setup = append(sc.Setup, BOp{K: "newc", C: c})
+		}
+		sc.Setup = append(sc.Setup, BOp{K: "put", N: nv})
+		shape := rng.Intn(3)
+		for c := 1; c <= k; c++ {
+			var ops []BOp
+			reads := nv
+			if shape >= 1 && c == 1 {
+				reads = rng.Intn(nv) // the slowest consumer reads less (maybe nothing)
+			}
+			for i := 0; i < reads; i++ {
+				ops = append(ops, BOp{K: "get", C: c, Ctx: 1})
+			}
+			if reads > 0 {
+				ops = append(ops, BOp{K: "commit", C: c})
+			}
+			switch {
+			case shape >= 1 && c == 1:
+				if shape == 1 {
+					ops = append(ops, BOp{K: "close", C: c}) // closing the slowest consumer must release its hold
+				} else {
+					ops = append(ops, BOp{K: "size"})
+				}
+			case c < k || shape >= 1:
+				ops = append(ops, BOp{K: "get", C: c, Ctx: 1}) // caught up: parks in Get
+			}
+			sc.Drivers = append(sc.Drivers, ops)
+		}
+		if rng.Intn(2) == 0 {
+			sc.Drivers = append(sc.Drivers, []BOp{{K: "put", N: 1 + rng.Intn(2)}, {K: "size"}})
+		}
+		return sc
+	}
 	// setup: usually create the first consumer and maybe put something
 	if rng.Intn(4) > 0 {
 		sc.Setup = append(sc.Setup, BOp{K: "newc", C: 1})
